@@ -269,12 +269,16 @@ def run(ctx):
         raise MachineryError("too few events recorded: binding broken")
     if sum(1 for e in fx_events if e["a"] == "Cli") < 20 or not any(e["a"] == "Cell" for e in fx_events):
         raise MachineryError("CLI / cell events missing: binding broken")
+    bundle_cli = [e for e in fx_events if e["a"] == "Cli" and "generated bundle" in e["src"]]
     n_item = sum(1 for e in fx_events if e["a"] == "CliItem" and "generated bundle" in e["src"] and not e["binary"]
                  and e["mode"] == "unit" and '"bytes' in json.dumps(e["v"]))
     n_read = sum(1 for e in fx_events if e["a"] == "RoundTrip" and "streams read" in e.get("src", ""))
-    if not n_item or not n_read:
-        raise MachineryError(f"multi-result CLI items with binary units ({n_item}) / replays with read streams ({n_read}) "
+    if len(bundle_cli) < 8 or any(e["n"] < 2 for e in bundle_cli) or not n_read:
+        raise MachineryError(f"multi-result CLI inputs ({len(bundle_cli)} runs) / replays with read streams ({n_read}) "
                              "missing: binding broken")
+    if not n_item and all(e["eq"] and e["rc"] == 0 for e in bundle_cli):
+        # (a wrongly shaped output has no items to look at: its Cli event is rejected instead)
+        raise MachineryError("no unit of a multi-result CLI output with binary payloads was recorded: binding broken")
 
     # ---- 4. code -> spec: TLC validates the observations
     law_cfg = f'SPECIFICATION TraceSpec\nCONSTRAINT TraceAccept\nCONSTANTS\n Deviations = {ASBUILT_AFTER_FIXES}\n Accept = "law"\n'
